@@ -14,7 +14,7 @@ BUILT = {
    text='For every generated tensor every pivot and both stabilisation settings are executed and judged: orthonormal cores around the pivot, tensor preserved (times 2^p), pivot norm, rank cuts, no aliasing, moderate magnitudes, ValueError for out-of-range pivots, in-place contract of the single-step variants.',
    note='Trusted: longdouble contraction / unbounded-exponent probes as reference; tolerance 50 d eps prod||G_k||_F.', ref='§4 C04'),
  'C05': dict(cat='exploration', tech='boundary trace (logged objective batches, per-sweep callback, tensor copies, info, cache) checked offline; differential run with and without cache',
-   text='Each TT-cross run on an exact-rank target is recorded at its boundary and judged: exactness once a full sweep ran at ranks >= rho, bitwise cache transparency with counter conservation m_cached + m_cache = m_plain, cache contents = evaluated pairs, info r / e_vld / e recomputed from the returned tensor and the previous sweep.',
+   text='Each TT-cross run on an exact-rank target is recorded at its boundary and judged: exactness once a full sweep ran at ranks >= rho, bitwise cache transparency with counter conservation m_cached + m_cache = m_plain, cache contents = evaluated pairs, info r / e_vld / e recomputed from the returned tensor and the previous sweep (r and e_vld also for runs interrupted by budget or objective in either half-sweep).',
    note='Trusted: dense table objective (batch-independent values); conditioning threshold 1e-5 for "almost all"; exactness tolerance 1e-8 max|T|.', ref='§4 C05'),
  'C06': dict(cat='fault_enumeration', tech='complete enumeration of interruption points (every budget, every None-returning call, every callback stop, every stop-argument pattern, thresholds around the trajectory) with an offline checker over the recorded event log (prefix rule against a fault-free reference run)',
    text='Per configuration the whole interruption space is enumerated and every run is checked: index domain, budget, info counters against the objective log, prefix rule, exactly one consistent stop reason, no evaluation after a stop, well-formed finite result in every interrupted run, ValueError before any evaluation for missing criteria.',
